@@ -7,6 +7,10 @@ from vf import Machinery
 def check(run, args):
     run.build_harness()
     out = os.path.join(run.scratch, "gennames_out.go")
+    # the output file already exists and is LONGER than the new table (a table generated earlier, e.g. with a wider filter):
+    # the tool must replace it, not write into it
+    with open(out, "w") as f:
+        f.write("package names\n\nvar Names = map[string]string{\n" + "".join('\t"old/entry/%d": "entry%d",\n' % (i, i) for i in range(2000)) + "}\n")
     r = subprocess.run(["go", "run", "./gennames", "-standard", "-output", out, "-package", "names", "-name", "Names"], cwd=vf.REPO, env=run.goenv(),
                        capture_output=True, text=True, errors="replace", timeout=1800)
     viols = []
